@@ -47,6 +47,11 @@ Definition C13_gen (Gconsistent : mtype -> list (list N * pval) -> Prop)
             then ORequest (match aget k_id data with Some i => i | None => PNull end)
                           (MTyped (TRegistryMsg r) o)
             else ONotification (MTyped (TRegistryMsg r) o))) /\
+  (* ... also when pygls has a built-in handler for the method: the user's feature is called once,
+     after the built-in, with that same object (built-ins do not write to params) *)
+  (forall obj bst (builtin : list N -> obj -> bst -> bst) hb m p s,
+     snd (call_user_feature obj bst builtin hb true m p s)
+     = (if hb then [CBuiltin m p] else []) ++ [CUser m p]) /\
   (* ... and the reply to a request is structured with the result type of the REQUESTED method,
      whatever was sent or received under other ids in between *)
   (forall obj structure reg st m i st1 has_id m' ty evs data,
@@ -108,6 +113,7 @@ Proof.
   - intros. eapply route_is_classify; eassumption.
   - exact id_presence_not_value.
   - intros. eapply handler_gets_structure; eassumption.
+  - intros. apply user_feature_gets_params.
   - intros. eapply reply_structured_as_requested; eassumption.
   - intros. apply generic_leaves_reachable; assumption.
   - intros. eapply generic_handler_gets_object; eassumption.
@@ -175,7 +181,7 @@ Proof. eexists. eexists. split; [vm_compute; reflexivity|split; reflexivity]. Qe
 
 Theorem C13_refuted : ~ C13_statement.
 Proof.
-  intros (_ & _ & _ & _ & _ & H & _).
+  intros (_ & _ & _ & _ & _ & _ & H & _).
   destruct (H w_type_name eq_refl I) as (o & Ho & Hl).
   specialize (Hl [Key (S "type_name")] (JStr (S "Foo"))).
   assert (In ([Key (S "type_name")], JStr (S "Foo")) (spec_leaves w_type_name)) as Hin
